@@ -354,7 +354,7 @@ func raceCanary() {
 }
 
 func runC17(c *ctx) {
-	c.Rule = "race-detector build of a multi-goroutine driver: a pool of 200 shared objects (templates with variables and ellipses, messages, control messages, encoded byte strings, SML texts, shared fill maps) whose sequential reference results are computed afterwards on independently constructed twins (nothing is asked of a shared object before the concurrent phase, so lazily initialised state is first touched under concurrency); 32 (thorough 64) goroutines hammer a few hot objects per round with String, ToBytes, Variables, Size, Header, SystemBytes, FillVariables (shared read-only map and private maps), ellipsis expansion, SetWaitBit, SetSessionIDAndSystemBytes, Type, response constructors, hsms.Parse of a shared buffer and sml.Parse, with Gosched jitter, and every 64th operation builds, prints, parses and fills an object whose variable names the process has never seen (checked against the model); 4 (thorough 25) rounds with different seeds. Oracle: no WARNING: DATA RACE block in the race log whose stacks include a frame of the library, and every call returns what the same call returned in the sequential pre-pass; a deliberately racy canary must be reported or the run is inconclusive. non-trivial = a call that started while another goroutine's call on the same object was in flight; distinct by (operation, object, round)"
+	c.Rule = "race-detector build of a multi-goroutine driver: a pool of 200 shared objects (templates with variables and ellipses, messages, control messages, encoded byte strings, SML texts, shared fill maps) whose sequential reference results are computed afterwards on independently constructed twins (nothing is asked of a shared object before the concurrent phase, so lazily initialised state is first touched under concurrency); 32 (thorough 64) goroutines hammer a few hot objects per round with String, ToBytes, Variables, Size, Header, SystemBytes, FillVariables (shared read-only map and private maps), ellipsis expansion, SetWaitBit, SetSessionIDAndSystemBytes, Type, response constructors, hsms.Parse of a shared buffer and sml.Parse, with Gosched jitter, and every 64th operation builds, prints, parses and fills an object whose variable names the process has never seen (checked against the model); 4 (thorough 15) rounds with different seeds. Oracle: no WARNING: DATA RACE block in the race log whose stacks include a frame of the library, and every call returns what the same call returned in the sequential pre-pass; a deliberately racy canary must be reported or the run is inconclusive. non-trivial = a call that started while another goroutine's call on the same object was in flight; distinct by (operation, object, round)"
 	c.Assume = []string{"the race detector judges the executions that happened, not all interleavings", "GORACE log_path is set by bin/check"}
 
 	logPrefix := ""
@@ -369,9 +369,9 @@ func runC17(c *ctx) {
 	}
 	raceCanary()
 
-	rounds := c.pick(4, 25)
+	rounds := c.pick(4, 15)
 	goroutines := c.pick(32, 64)
-	opsPer := c.pick(2000, 40000)
+	opsPer := c.pick(2000, 15000)
 	var overlapping, calls, mismatches, compared, freshOps int64
 	for round := 0; round < rounds; round++ {
 		seed := c.rnd.U64()
